@@ -10,7 +10,10 @@ that still exists:
  * a dropped-handle notification for id `x` is queued for the task (`droppedq`).
 The other two slot kinds ARE the record of a request that the peer has not answered yet: a `Requested`
 slot is an open request (its `Connect` is out, whether its caller still waits or has given up), a
-`BindRequested` slot a bind request.
+`BindRequested` slot a bind request.  (Such a slot only enters the table together with its frame: a
+call that finds the outbound queue closed takes the slot it had inserted out again and returns
+`Closed` — `openRound` / `appBindReq`, `Lemmas/MuxEndedTable.lean` — so none of them is the left-over
+of a request that was never sent.)
 
 The model has no "dropped" flag on a handle (`rxOpen = false` is also what reading end-of-stream
 leaves behind), so the handles a history has dropped are tracked beside the state (`dropsOf`).
@@ -30,7 +33,8 @@ namespace Penguin.Mux
 
 /-- The endpoint is in service: the `Multiplexor` is held, the task runs and has not begun to wind
     down (its outbound queue is open).  Once one of these fails the task is winding down or about to
-    (the notification `0` is queued), and the wind-down ends by clearing the whole table. -/
+    (the notification `0` is queued), and the wind-down ends by clearing the whole table — which then
+    stays empty (`reachable_dead_table_empty`, `Lemmas/MuxEndedTable.lean`). -/
 structure Serving (e : EP) : Prop where
   outOpen : e.outClosed = false
   mux : e.muxAlive = true
@@ -244,7 +248,7 @@ theorem KeepsA.openRound (e : EP) (r : OpenReq) : KeepsA e (openRound e r).1 := 
         KeepsA.insertPending e fid _ (by intro i hc; cases hc)
       simp only
       split
-      · exact g.trans (by ka)
+      · ka
       · exact (KeepsA.enqFrame _ _).after (g.trans (by ka))
 
 theorem KeepsA.openRejected (e : EP) (req : Nat) (final : Bool) : KeepsA e (openRejected e req final).1 := by
